@@ -125,7 +125,13 @@ class TransformedMessage(MessageInterface):
         Creates a new TransformedMessage with the same id and transforms but a new
         underlying base message
         """
-        return TransformedMessage(message, *self.transforms, id_=self.id)
+        return TransformedMessage(
+            message,
+            *self.transforms,
+            id_=self.id,
+            lower_limit=self.lower_limit,
+            upper_limit=self.upper_limit,
+        )
 
     @arithmetic
     def __mul__(self, other):
